@@ -734,3 +734,18 @@ def _flag_guard(ctx, fn, ex, node, want):
                         for n in own_nodes(fn.node)):
                 return p == want
     return False
+
+
+@obligation('C13-g', 'T2', 'the weighted statistics and the mixture contain no absolute tolerance',
+            floor=6,
+            necessary='the quantile must be invariant to rescaling the weights and the other '
+                      'statistics equal their formulas for all weights: a test against an '
+                      'absolute number (np.isclose(sum, 0)) treats small valid weights as zero')
+def c13_g(ctx):
+    from .base import scale_free_sweep
+    fns = [ctx.fn('elfi.methods.utils:weighted_sample_quantile'),
+           ctx.fn('elfi.methods.utils:weighted_var'),
+           ctx.fn('elfi.methods.utils:normalize_weights')]
+    fns += list(ctx.cls('elfi.methods.utils:GMDistribution').methods.values())
+    scale_free_sweep(ctx, fns, 'valid weights / spreads below the tolerance are treated as zero, '
+                               'so the statistic depends on the scale of its input')
